@@ -36,7 +36,8 @@ Definition view_C05g (c : ctx) (items : list item) : view :=
 Definition c19_clash (i : input) : bool :=
   match i with
   | InFn _ s _ => match lifted_params (s_gen s) with
-                  | p :: _ => is_prefix [TId "EntraitT"] (print_gparam p) && negb (c19_bounds_ok [] (print_gparam p))
+                  | p :: _ => is_prefix [TId "EntraitT"] (print_gparam p) &&
+                              negb (c19_bounds_ok [] (print_gparam p) && c19_fixed_bounds (print_gparam p))
                   | [] => false
                   end
   | _ => false
